@@ -4,13 +4,19 @@ import (
 	"encoding/json"
 	"flag"
 	"fmt"
+	"math"
 	"math/rand"
 	"os"
+	"sort"
+	"strings"
 
 	"github.com/GuanceCloud/platypus/pkg/inimpl/guancecloud/input"
 )
 
-func init() { register("record-point", recordPoint) }
+func init() {
+	register("record-point", recordPoint)
+	register("record-point-kinds", recordPointKinds)
+}
 
 // specVal renders a Go point value in the spec's record shape (exact field sets, so TLC equality works).
 func specVal(g any) map[string]any {
@@ -64,6 +70,163 @@ func opRec(o sop) map[string]any {
 		v["s"] = o.V.S
 	}
 	return map[string]any{"o": o.O, "k": o.K, "k2": o.K2, "v": v, "T": o.T}
+}
+
+// goKind: the kind of a Go value held in Point.Fields, as PointKinds knows kinds; anything a field must not hold is "other:<type>".
+func goKind(v any) string {
+	switch v.(type) {
+	case nil:
+		return "nil"
+	case int64:
+		return "int"
+	case float64:
+		return "float"
+	case bool:
+		return "bool"
+	case string:
+		return "str"
+	}
+	return fmt.Sprintf("other:%T", v)
+}
+
+// projPointKinds: the point projected to PointKinds' variables.
+func projPointKinds(pt *input.Point) map[string]any {
+	meta, fieldk := map[string]any{}, map[string]any{}
+	tagged := []string{}
+	for k, m := range pt.Meta {
+		flag := "field"
+		if m.PtFlag == input.PtTag {
+			flag = "tag"
+		}
+		meta[k] = map[string]any{"dt": m.DType.String(), "flag": flag}
+	}
+	for k, v := range pt.Fields {
+		fieldk[k] = goKind(v)
+	}
+	for k := range pt.Tags {
+		tagged = append(tagged, k)
+	}
+	sort.Strings(tagged)
+	return map[string]any{"meta": meta, "fieldk": fieldk, "tagged": tagged}
+}
+
+// extreme values: literal spelling in a script, kind, and (for initial fields) the Go value
+type xval struct {
+	lit  string
+	kind string
+	gv   any
+}
+
+var extremeVals = []xval{
+	{"9223372036854775807", "int", int64(math.MaxInt64)}, {"(-9223372036854775807 - 1)", "int", int64(math.MinInt64)},
+	{"9007199254740993", "int", int64(9007199254740993)}, {"0", "int", int64(0)}, {"-1", "int", int64(-1)},
+	{"9223372036854775808.0", "float", float64(9223372036854775808.0)}, {"-9223372036854775808.0", "float", float64(-9223372036854775808.0)},
+	{"1e300", "float", 1e300}, {"-1e300", "float", -1e300}, {"(1e308 * 10.0)", "float", math.Inf(1)}, {"(-1e308 * 10.0)", "float", math.Inf(-1)},
+	{"((1e308 * 10.0) - (1e308 * 10.0))", "float", math.NaN()}, {"0.5", "float", 0.5}, {"1e-320", "float", 1e-320},
+	{"true", "bool", true}, {"false", "bool", false}, {"nil", "nil", nil},
+	{`"1e19"`, "str", "1e19"}, {`"-1e19"`, "str", "-1e19"}, {`"inf"`, "str", "inf"}, {`"-Inf"`, "str", "-Inf"}, {`"NaN"`, "str", "NaN"},
+	{`"9223372036854775807"`, "str", "9223372036854775807"}, {`"9223372036854775808"`, "str", "9223372036854775808"},
+	{`"-9223372036854775809"`, "str", "-9223372036854775809"}, {`"0x7fffffffffffffff"`, "str", "0x7fffffffffffffff"},
+	{`"1_000"`, "str", "1_000"}, {`" 12 "`, "str", " 12 "}, {`"1.5e3"`, "str", "1.5e3"}, {`"TRUE"`, "str", "TRUE"}, {`"t"`, "str", "t"},
+	{`""`, "str", ""}, {`"\u4e16\u754c\u00e9"`, "str", "\u4e16\u754c\u00e9"}, {`"\x00\xff"`, "str", "\x00\xff"},
+	{`"` + strings.Repeat("9", 400) + `"`, "str", strings.Repeat("9", 400)}, {`"` + strings.Repeat("ab", 5000) + `"`, "str", strings.Repeat("ab", 5000)},
+	{"[1, [2, [3, {\"a\": [nil, 1.5]}]]]", "list", nil}, {"[]", "list", nil}, {"{}", "map", nil}, {"{\"k\": 9223372036854775807}", "map", nil},
+	{"some.attr", "void", nil}, {"[(1e308 * 10.0)]", "unconv", nil},
+}
+
+// record-point-kinds -seed S -n N -len L -keys K -out file: random builtin sequences over EXTREME values; after every call the point is
+// projected to kinds (PointKinds): the trace is validated by TLC against TracePointKinds.
+func recordPointKinds(args []string) (any, error) {
+	fs := flag.NewFlagSet("record-point-kinds", flag.ContinueOnError)
+	seed := fs.Int64("seed", 1, "")
+	n := fs.Int("n", 20, "")
+	ln := fs.Int("len", 100, "")
+	nk := fs.Int("keys", 8, "")
+	out := fs.String("out", "", "")
+	if err := fs.Parse(args); err != nil {
+		return nil, err
+	}
+	rng := rand.New(rand.NewSource(*seed))
+	f, err := os.Create(*out)
+	if err != nil {
+		return nil, err
+	}
+	defer f.Close()
+	enc := json.NewEncoder(f)
+	keys := []string{"message"}
+	for i := 1; i < *nk; i++ {
+		keys = append(keys, fmt.Sprintf("k%d", i))
+	}
+	cache := newScriptCache()
+	sum := &Summary{}
+	events := 0
+	rec0 := func(o, k, k2, vk, T string) map[string]any {
+		return map[string]any{"o": o, "k": k, "k2": k2, "vk": vk, "T": T}
+	}
+	for t := 0; t < *n; t++ {
+		tags := map[string]string{}
+		fields := map[string]any{}
+		for _, k := range keys[:*nk/2] {
+			switch rng.Intn(3) {
+			case 0:
+				tags[k] = []string{"tv", "", "1e19", "9223372036854775807"}[rng.Intn(4)]
+			case 1:
+				for {
+					x := extremeVals[rng.Intn(len(extremeVals))]
+					if x.kind == "int" || x.kind == "float" || x.kind == "bool" || x.kind == "str" || x.kind == "nil" {
+						fields[k] = x.gv
+						break
+					}
+				}
+			}
+		}
+		pt := input.GetPoint()
+		input.InitPt(pt, "m0", tags, fields, fixedTime)
+		_ = enc.Encode(map[string]any{"op": rec0("init", "", "", "nil", ""), "post": projPointKinds(pt)})
+		for i := 0; i < *ln; i++ {
+			k := keys[rng.Intn(len(keys))]
+			k2 := keys[rng.Intn(len(keys))]
+			for k2 == k {
+				k2 = keys[rng.Intn(len(keys))]
+			}
+			sk, sk2 := spellKey(k), spellKey(k2)
+			var op map[string]any
+			var script string
+			switch rng.Intn(12) {
+			case 0, 1, 2, 3:
+				x := extremeVals[rng.Intn(len(extremeVals))]
+				op, script = rec0("add_key", k, "", x.kind, ""), fmt.Sprintf("add_key(%s, %s)", sk, x.lit)
+			case 4:
+				op, script = rec0("set_tag", k, "", "nil", ""), fmt.Sprintf("set_tag(%s)", sk)
+			case 5:
+				op, script = rec0("set_tag_from", k, k2, "nil", ""), fmt.Sprintf("set_tag(%s, %s)", sk, sk2)
+			case 6:
+				op, script = rec0("drop_key", k, "", "nil", ""), fmt.Sprintf("drop_key(%s)", sk)
+			case 7:
+				op, script = rec0("rename", k, k2, "nil", ""), fmt.Sprintf("rename(%s, %s)", sk, sk2)
+			default:
+				T := []string{"int", "float", "str", "bool"}[rng.Intn(4)]
+				op, script = rec0("cast", k, "", "nil", T), fmt.Sprintf("cast(%s, %q)", sk, T)
+			}
+			sc, err := cache.load(script)
+			if err != nil {
+				return nil, fmt.Errorf("load %q: %v", script, err)
+			}
+			rec := map[string]any{"op": op, "script": script}
+			if e := sc.Run(pt, nil); e != nil {
+				rec["run_error"] = e.Error()
+			}
+			rec["post"] = projPointKinds(pt)
+			_ = enc.Encode(rec)
+			events++
+		}
+		input.PutPoint(pt)
+		sum.Evaluations++
+		sum.sample(map[string]any{"trace": t, "ops": *ln, "keys": *nk})
+	}
+	sum.Distinct = sum.Evaluations
+	sum.Extra = map[string]any{"events": events}
+	return sum, nil
 }
 
 // record-point -seed S -n N -len L -keys K -out file: long random builtin sequences on one point.
